@@ -655,3 +655,260 @@ Proof.
   split; [exact ex_deadline_tie|]. split; [exact ex_enter_wf|exact ex_inv_holds].
 Qed.
 Print Assumptions C16_deadline_examples.
+
+(* ---------------------------------------------------------------------------------------------
+   Fourth round: no well-formedness hypothesis left on reachable states
+   (Sched/TimerWf.v, Sched/TimerReach.v, Sched/TimerReachEx.v).
+
+   Additional vocabulary:
+     TWfN n s, TWf s = TWfN 0 s   the timer tables are well formed (spelled out in the first clause of
+                         C16_enter_wf_reachable): at least n handles exist, every heap entry refers to
+                         an existing handle, handle ids in the heap are pairwise distinct, the timer
+                         list is a heap for TimerHandle.__lt__, a handle carries HTrigger b only for
+                         an allocated block b
+     at_calls P s0 acts  P sm holds for EVERY library call made in the run acts from s0, sm being the
+                         state in which the call is made - calls made by user code in the middle of
+                         a task step (any nesting of eager children, after any frame resumption) as
+                         well as calls from outside the loop (ADo; those under the proviso that at
+                         least one handle exists).  Defined by instrumenting the model clause by
+                         clause (TimerReach.exec_pre / step_pre / run_one_pre / run_pre)
+     at_enters R s0 acts R t d sm sf holds for EVERY task_timeout(d) entered in the run: by task t in
+                         state sm (mid-step, or from outside the loop with t = 0 if a handle exists),
+                         sf being the state at the END of the loop step (or external call) that
+                         made the call - a state between actions, from which do_action lists start
+     Inv09 qok s         C09's invariant between actions (Props/C09.v); actions_ok: the domain condition
+                         of C09 (timeout exits refer to blocks entered before) *)
+From Asynkit Require Import Sched.PartitionRun Sched.PrioQueueProofs Sched.PrioQueueBoost
+     Sched.TimerWf Sched.TimerReach Sched.TimerReachEx.
+
+(* C16_enter_wf_reachable.  (1) what TWfN says.  (2) it holds initially and (3) is preserved by
+   everything, with no side condition at all.  (4) together with C09's invariant (any current
+   task, i.e. also mid-step) and one existing handle it gives EnterWf.  (5) hence in every state
+   reachable from a state with Inv09 and TWf under actions_ok: Inv09, TWf, and EnterWf as soon as
+   a handle exists (handles are never removed: TWfN n is preserved for every n); (6) and EnterWf
+   holds in the state of EVERY library call of such a run - in particular at every OTimeoutEnter,
+   in the middle of a step.  (7) the initial states of the three loop models (list loop, priority
+   loop without and with boosting) are such start states *)
+Theorem C16_enter_wf_reachable :
+  (forall n s, TWfN n s <->
+     n <= length (handles s) /\
+     (forall e, In e (timers s) -> snd e < length (handles s)) /\
+     NoDup (map snd (timers s)) /\ is_heap timer_lt (timers s) /\
+     (forall x b', x < length (handles s) -> hcb (geth s x) = HTrigger b' -> b' < length (blocks s))) /\
+  (forall prio factor draws lks cds nev, TWf (init_st prio factor draws lks cds nev)) /\
+  (forall n s, TWfN n s ->
+     (forall t op, TWfN n (fst (lib_call t op s))) /\
+     (forall t frs inp, TWfN n (fst (resume_stack t frs inp s))) /\
+     (forall t c, TWfN n (fst (exec t c s))) /\
+     (forall t exc, TWfN n (step_task t exc s)) /\
+     TWfN n (run_one s) /\ TWfN n (begin_iteration s) /\
+     (forall acts, TWfN n (fold_left do_action acts s))) /\
+  (forall qok c s, InvC qok c s -> TWfN 1 s -> EnterWf qok s) /\
+  (forall qok, QSpec qok -> forall s0 acts,
+     Inv09 qok s0 -> TWf s0 -> actions_ok s0 acts ->
+     let s := fold_left do_action acts s0 in
+     Inv09 qok s /\ TWf s /\ (0 < length (handles s) -> EnterWf qok s)) /\
+  (forall qok, QSpec qok -> forall s0 acts,
+     Inv09 qok s0 -> TWf s0 -> actions_ok s0 acts -> at_calls (EnterWf qok) s0 acts) /\
+  ((forall factor draws lks cds nev,
+      let s0 := init_st false factor draws lks cds nev in Inv09 qok_list s0 /\ TWf s0) /\
+   (forall draws lks cds nev,
+      let s0 := init_st true 0 draws lks cds nev in Inv09 qok_pos s0 /\ TWf s0) /\
+   (forall factor draws lks cds nev,
+      let s0 := init_st true factor draws lks cds nev in Inv09 qok_boost s0 /\ TWf s0)).
+Proof.
+  split.
+  { intros n s. split.
+    - intros []. auto 6.
+    - intros (a & b & c & d & e). constructor; auto. }
+  split; [exact TW_init|]. split.
+  { intros n s H.
+    split; [intros t op; destruct (lib_call t op s) as [s1 r] eqn:E; eapply TW_lib_call; eauto|].
+    split; [intros t frs inp; destruct (resume_stack t frs inp s) as [s1 r] eqn:E; eapply TW_resume_stack; eauto|].
+    split; [intros t c; destruct (exec t c s) as [s1 o] eqn:E; eapply TW_exec; eauto|].
+    split; [intros; apply TW_step_task; auto|]. split; [apply TW_run_one; auto|].
+    split; [apply TW_begin_iteration; auto|intros; apply TW_actions; auto]. }
+  split; [exact enter_wf_of|]. split; [intros qok QS s0 acts; exact (reach_wf qok QS acts s0)|]. split; [exact enter_wf_every_call|exact reach_init].
+Qed.
+Print Assumptions C16_enter_wf_reachable.
+
+(* C16_timer_armed_reachable: C16_timer_armed with no EnterWf / Inv hypothesis.  For every block
+   entered in a run from a start state as above (clause 7 of C16_enter_wf_reachable: any of the
+   three loops), wherever the enter happens: the call arms the timer exactly as in C16_timer_armed
+   (1), the invariant of the new block holds right after the call AND at the end of the loop step
+   that made it, and from there along every continuation whose iteration starts happen before the
+   deadline (C16_timer_armed (2)) *)
+Theorem C16_timer_armed_reachable :
+  forall qok, QSpec qok -> forall s0 acts,
+  Inv09 qok s0 -> TWf s0 -> actions_ok s0 acts ->
+  at_enters (fun t d sm sf =>
+     let b := length (blocks sm) in let h := length (handles sm) in let w := (now sm + d)%Q in
+     let s' := enter_st sm t d in
+     lib_call t (OTimeoutEnter (Some d)) sm = (s', LDone (RVal (Z.of_nat b))) /\
+     getb s' b = mkBlk t true h /\ geth s' h = mkH (HTrigger b) false /\
+     Permutation (timers s') ((w, h) :: timers sm) /\
+     (forall e, In e (timers sm) -> snd e <> h) /\
+     Inv qok b h w s' /\ Inv qok b h w sf /\
+     forall acts', early w (now sf) acts' ->
+       let s'' := fold_left do_action acts' sf in
+       Inv qok b h w s'' /\
+       hcb (geth s'' h) = HTrigger b /\ btimer (getb s'' b) = h /\
+       hcancelled (geth s'' h) = negb (bactive (getb s'' b)) /\
+       ~ In h (rq_items (ready s'')) /\
+       (bactive (getb s'' b) = true ->
+          hcancelled (geth s'' h) = false /\
+          exists l1 l2, timers s'' = l1 ++ (w, h) :: l2 /\ forall e, In e (l1 ++ l2) -> snd e <> h))
+    s0 acts.
+Proof.
+  intros qok QS s0 acts J T Ha. apply (at_enters_intro qok QS); auto.
+  intros t d sm sf b h w W A1 A2 A3. destruct C16_timer_armed as (P1 & P2 & _).
+  destruct (P1 qok t d sm W) as (B1 & B2 & B3 & B4 & B5 & B6).
+  repeat (split; [assumption|]). intros acts' He. apply (P2 qok QS b h w acts' sf A3 He).
+Qed.
+Print Assumptions C16_timer_armed_reachable.
+
+(* C16_not_before_deadline_reachable: for every block entered in such a run, along every
+   continuation (from the end of the entering step) whose iteration starts all happen before the
+   deadline: the trigger handle is not ready, is never what the loop pops next, is the only handle
+   carrying HTrigger b, and stays armed while the block is active - so the interruptor of b is
+   never created before the deadline.  No hypothesis on the state *)
+Theorem C16_not_before_deadline_reachable :
+  forall qok, QSpec qok -> forall s0 acts,
+  Inv09 qok s0 -> TWf s0 -> actions_ok s0 acts ->
+  at_enters (fun t d sm sf =>
+     let b := length (blocks sm) in let h := length (handles sm) in let w := (now sm + d)%Q in
+     forall acts', early w (now sf) acts' ->
+       let s'' := fold_left do_action acts' sf in
+       ~ In h (rq_items (ready s'')) /\
+       (forall x r, rq_popleft (ready s'') = Some (x, r) -> x <> h /\ hcb (geth s'' x) <> HTrigger b) /\
+       (forall x, x < length (handles s'') -> hcb (geth s'' x) = HTrigger b -> x = h) /\
+       (bactive (getb s'' b) = true -> In (w, h) (timers s'') /\ hcancelled (geth s'' h) = false))
+    s0 acts.
+Proof.
+  intros qok QS s0 acts J T Ha. apply (at_enters_intro qok QS); auto.
+  intros t d sm sf b h w W A1 A2 A3. cbv zeta. intros acts' He.
+  apply (proj2 (C16_not_before_deadline qok QS b h w acts' sf A3 He)).
+Qed.
+Print Assumptions C16_not_before_deadline_reachable.
+
+(* C16_due_timer_moves_reachable.  (1) in every reachable state (between actions, where iterations
+   start) the iteration start behaves as in C16_due_timer_moves (1): no heap hypothesis.  (2) for
+   every block entered in such a run: if, after a continuation whose iteration starts were all
+   early, the block is still active and the clock has reached the deadline, the next iteration
+   start moves the trigger to the ready queue (C16_due_timer_moves (3)) *)
+Theorem C16_due_timer_moves_reachable :
+  forall qok, QSpec qok -> forall s0 acts,
+  Inv09 qok s0 -> TWf s0 -> actions_ok s0 acts ->
+  (let s := fold_left do_action acts s0 in
+   exists dropped moved tm',
+     begin_iteration s = s <| timers := tm' |> <| ready := fold_left (app_due s) moved (ready s) |> /\
+     Permutation (timers s) (dropped ++ moved ++ tm') /\
+     (forall e, In e dropped -> hcancelled (geth s (snd e)) = true) /\
+     (forall e, In e moved -> (fst e <= now s)%Q) /\
+     (forall e, In e tm' -> (now s < fst e)%Q) /\
+     StronglySorted dl_le moved /\ is_heap timer_lt tm') /\
+  at_enters (fun t d sm sf =>
+     let b := length (blocks sm) in let h := length (handles sm) in let w := (now sm + d)%Q in
+     forall acts', early w (now sf) acts' ->
+       let s := fold_left do_action acts' sf in
+       bactive (getb s b) = true -> (w <= now s)%Q ->
+       exists dropped m1 m2 tm',
+         let moved := m1 ++ (w, h) :: m2 in
+         begin_iteration s = s <| timers := tm' |> <| ready := fold_left (app_due s) moved (ready s) |> /\
+         Permutation (timers s) (dropped ++ moved ++ tm') /\
+         (forall e, In e dropped -> hcancelled (geth s (snd e)) = true) /\
+         (forall e, In e m1 -> (fst e <= w)%Q) /\
+         (forall e, In e m2 -> (w <= fst e)%Q /\ (fst e <= now s)%Q) /\
+         (forall e, In e tm' -> (now s < fst e)%Q) /\
+         (forall e, In e (dropped ++ m1 ++ m2 ++ tm') -> snd e <> h) /\
+         In h (rq_items (ready (begin_iteration s))) /\
+         (forall l, ready s = RList l ->
+            ready (begin_iteration s) = RList (l ++ map snd m1 ++ h :: map snd m2)))
+    s0 acts.
+Proof.
+  intros qok QS s0 acts J T Ha. destruct C16_due_timer_moves as (P1 & _ & P3 & _). split.
+  - destruct (reach_wf qok QS acts s0 J T Ha) as (_ & T' & _). apply P1. apply (tw_hp _ _ T').
+  - apply (at_enters_intro qok QS); auto.
+    intros t d sm sf b h w W A1 A2 A3. cbv zeta. intros acts' He Hact Hw.
+    destruct C16_timer_armed as (_ & P2 & _).
+    destruct (P2 qok QS b h w acts' sf A3 He) as [I' _]. apply (P3 qok QS b h w _ I' Hact Hw).
+Qed.
+Print Assumptions C16_due_timer_moves_reachable.
+
+(* non-vacuity: a run of the list loop in which a Python task enters task_timeout(2) inside its
+   first step and sleeps: the action list is in the domain, the run does contain an enter (so
+   at_enters R is not vacuously true), and the instance of the reachable theorem: Inv for block 0
+   / trigger handle 1 / deadline 0 + 2 in the state after the step *)
+Theorem C16_reachable_example :
+  actions_ok rx_s0 rx_acts /\
+  ~ at_enters (fun _ _ _ _ => False) rx_s0 rx_acts /\
+  Inv qok_list 0 1 (0 + 2)%Q (fold_left do_action rx_acts rx_s0).
+Proof. split; [exact rx_actions_ok|]. split; [exact rx_enters|exact rx_inv]. Qed.
+Print Assumptions C16_reachable_example.
+
+(* ---------------------------------------------------------------------------------------------
+   Fifth round: the composition on the priority loop with starvation boosting ENABLED
+   (Sched/InterruptNextW.v, Sched/InterruptNextBoost.v; Props/C15.v, C15_QNext_boost: QNext is false
+   for the boosted queue, the weaker QNextW - after an insert at position 0 the rest of the run order
+   is a permutation of the old one - holds for the queue predicate qok_boostc = PriorityQueue
+   invariant + every entry positional-with-boost-0 or regular, which is a QSpec instance) *)
+From Asynkit Require Import Sched.InterruptNextW Sched.InterruptNextBoost.
+
+(* C16_fires_and_raises_weak_queue: C16_fires_and_raises_any_queue with QNextW in place of QNext -
+   same conclusion, so it covers the list queue, the priority queue and the boosted priority queue *)
+Theorem C16_fires_and_raises_weak_queue :
+  forall qok, QSpec qok -> QNextW qok -> forall c fuel s b i s1 v frs k kx (fr bd : st -> st),
+  InvC qok c s -> bactive (getb s b) = true -> i < 3 ->
+  let t := btask (getb s b) in
+  let tok := ETimeoutInt b in
+  let hn := length (handles s) in
+  task_throw s t tok = (s1, RVal v) ->
+  tmustc (gett s t) = false -> tcont_ (gett s t) = TSusp frs k ->
+  (forall s0, resume_stack t frs (RExc tok) s0 = (fr s0, LDone (RExc tok))) ->
+  (forall s0, exec t (k (RExc tok)) s0 = exec t (Call (OTimeoutExit b (RExc tok)) kx) (bd s0)) ->
+  exists sI r'',
+    let s3 := sI <| ready := r'' |> in
+    let s5 := bd (fr (running_state s3 t)) in
+    interruptor (S fuel) s b i = (sI, LSusp YNone [InSleep0; InIntr b i 0]) /\
+    InvC qok c sI /\
+    rq_popleft (ready sI) = Some (hn, r'') /\ geth sI hn = mkH (HStep t (Some tok)) false /\
+    run_one sI = step_task t (Some tok) s3 /\
+    delivered_exn s3 t tok = tok /\
+    lib_call t (OTimeoutExit b (RExc tok)) s5 = (exit_state s5 b, LDone (RExc ETimeout)) /\
+    bactive (getb (exit_state s5 b) b) = false /\
+    run_one sI = (let '(s6, o) := exec t (kx (RExc ETimeout)) (exit_state s5 b) in
+                  finish_step t s6 o <| current := None |>).
+Proof. exact fires_and_raises_genW. Qed.
+Print Assumptions C16_fires_and_raises_weak_queue.
+
+(* C16_fires_and_raises_boost: the instance for the boosted priority loop, any boost factor, any
+   draws.  In every state with C09's invariant for qok_boostc (every reachable state of the boosted
+   loop: C15_QNext_boost, last clause; also mid-step): block b active at the interruptor's attempt
+   i < 3, the throw accepted, the frames and the body hand the token to the exit of b  ==>  the
+   interruptor's attempt leaves the target's handle hn = HStep t (Some token) where popleft takes it
+   next, the run_one that pops it resumes the target with the token, and TimeoutError leaves b
+   inside that single handle run *)
+Theorem C16_fires_and_raises_boost :
+  forall c fuel s b i s1 v frs k kx (fr bd : st -> st),
+  InvC qok_boostc c s -> bactive (getb s b) = true -> i < 3 ->
+  let t := btask (getb s b) in
+  let tok := ETimeoutInt b in
+  let hn := length (handles s) in
+  task_throw s t tok = (s1, RVal v) ->
+  tmustc (gett s t) = false -> tcont_ (gett s t) = TSusp frs k ->
+  (forall s0, resume_stack t frs (RExc tok) s0 = (fr s0, LDone (RExc tok))) ->
+  (forall s0, exec t (k (RExc tok)) s0 = exec t (Call (OTimeoutExit b (RExc tok)) kx) (bd s0)) ->
+  exists sI r'',
+    let s3 := sI <| ready := r'' |> in
+    let s5 := bd (fr (running_state s3 t)) in
+    interruptor (S fuel) s b i = (sI, LSusp YNone [InSleep0; InIntr b i 0]) /\
+    InvC qok_boostc c sI /\
+    rq_popleft (ready sI) = Some (hn, r'') /\ geth sI hn = mkH (HStep t (Some tok)) false /\
+    run_one sI = step_task t (Some tok) s3 /\
+    delivered_exn s3 t tok = tok /\
+    lib_call t (OTimeoutExit b (RExc tok)) s5 = (exit_state s5 b, LDone (RExc ETimeout)) /\
+    bactive (getb (exit_state s5 b) b) = false /\
+    run_one sI = (let '(s6, o) := exec t (kx (RExc ETimeout)) (exit_state s5 b) in
+                  finish_step t s6 o <| current := None |>).
+Proof. exact (fires_and_raises_genW qok_boostc QSpec_boostc QNextW_boostc). Qed.
+Print Assumptions C16_fires_and_raises_boost.
